@@ -335,6 +335,70 @@ def check_r04d(repo, rep):
     return n
 
 
+def check_list_literal(repo, rep, uni):
+    """R04i: `[a, b, c]` is the list of the values of its three element
+    expressions.  The function the parser's list node calls (`#list`) is
+    applied abstractly to three elements each of which claims to be an
+    iterator / iterable / sequence: the result must be exactly those three
+    values, in order -- an element is never spliced, unpacked or dropped."""
+    from sa import absint
+    n = 0
+    for ov in uni.reg.by_name('#list', 'default'):
+        fi = ov.func
+        va = fi.node.args.vararg.arg if fi.node.args.vararg else None
+        if va is None:
+            continue
+        n += 1
+        elems = [absint.Obj('element%d' % i, __items__=[
+            absint.Sym('inside-element%d' % i)]) for i in range(3)]
+
+        def oracle(callee, args, kwargs):
+            tail = callee.rsplit('.', 1)[-1].rsplit(':', 1)[-1]
+            if tail in ('is_iterator', 'is_iterable', 'is_sequence',
+                        'is_mutable') and args and any(
+                    args[0] is e for e in elems):
+                return (True,)
+            if tail == 'limit_memory_usage':
+                return (None,)
+            if callee.startswith('arg-') and len(args) == 1:
+                # an injected delegate (to_list ...): the sequence it is
+                # given, as a sequence
+                return (args[0],)
+            return None
+
+        def inst(value, cls_expr):
+            return any(value is e for e in elems)
+        args = {}
+        fixed = fi.params()
+        for p in fixed:
+            args[p] = absint.Sym('arg-' + p)
+        for i, e in enumerate(elems):
+            args[len(fixed) + i] = e
+        it = absint.Interp(repo, fi.module, oracle, inst)
+        it.shared['eager-generators'] = True   # only the result is read
+        verdict, why = None, ''
+        try:
+            out = it.run(fi.node, args)
+            if out[0] == 'return':
+                got = [it.force(x) for x in it.iterate(out[1])]
+                verdict = len(got) == 3 and all(
+                    a is b for a, b in zip(got, elems))
+                why = 'applied to three elements that are iterators it ' \
+                    'gives %r' % (got,)
+        except (absint.Unsupported, absint._Raise, RecursionError,
+                TypeError) as e:
+            rep.note('R04i: %s not interpretable (%s)' % (fi.key, e))
+        if verdict is None:
+            continue
+        rep.ob('R04i', fi.key + '/list-of-its-elements', verdict,
+               'the list expression `[a, b]` must be the list of the values '
+               'of a and b; %s, the function behind `[...]`, %s: an element '
+               'that is itself a lazy sequence (the result of select / '
+               'where / .name on a collection) is spliced into the list' % (
+                   fi.qualname, why), loc=fi.module.loc(fi.node))
+    rep.floor('functions behind the list expression', n, 1)
+
+
 def _attribution_by_evaluation(repo, fi, ov, D, C):
     """The collection overload of `.` applied abstractly to a collection of
     three opaque elements with an uninterpreted delegate: the result, read
@@ -729,6 +793,10 @@ def run(repo, rep):
     from sa import universe as _u
     check_collection_attribution(repo, rep, _u.Universe(repo))
     check_named_unpack_binds_names_only(repo, rep)
+    rep.rule('R04i', 'LIST-EXPRESSION-KEEPS-ITS-ELEMENTS: the function behind '
+             '`[...]` returns exactly its argument values, never splicing '
+             'one that is a sequence')
+    check_list_literal(repo, rep, _u.Universe(repo))
     check_scopes_of_lazy_parameters(repo, rep, _u.Universe(repo))
     # R04e: bindings shadow, missing is null, `$` is `$1` -- the context
     # classes' clauses (decided by C17's rules, repeated here because the
